@@ -14,6 +14,7 @@ import Driver.Manifest
 import Driver.Sampling
 import Driver.Phantoms
 import Driver.Overstatement
+import Driver.SampleSize
 open Lean Shangrla Shangrla.Drv
 
 def dispatch (g op : String) (a : Json) : R Json :=
@@ -29,6 +30,7 @@ def dispatch (g op : String) (a : Json) : R Json :=
   | "sampling" => SamplingH.handle op a
   | "phantoms" => PhantomsH.handle op a
   | "overstatement" => OverstatementH.handle op a
+  | "samplesize" => SSH.handle op a
   | _ => throw s!"unknown group {g}"
 
 def handleLine (line : String) : String :=
